@@ -26,6 +26,8 @@ def gen(repo):
     s7 = cxxscan.find_int(r"if\s*\(\s*payload\.size\(\)\s*<=\s*(\w+)\s*\)", ser, "serialize 7-bit bound")
     s16 = cxxscan.find_int(r"else\s+if\s*\(\s*payload\.size\(\)\s*<=\s*(\w+)\s*\)", ser, "serialize 16-bit bound")
     dflt = cxxscan.find_int(r"_maxFrameSize\s*\(([^)]*)\)", ssrc, "WebSocketServer default _maxFrameSize")
+    csrc = read(repo, "include/iora/network/websocket_client.hpp")
+    cmax = cxxscan.find_int(r"kMaxFramePayload\s*=\s*([^;]+);", csrc, "WebSocketClient::kMaxFramePayload")
     t = HEADER % (f + ", " + s)
     t += "namespace Iora.Gen.Ws\n"
     t += "/-- `enum class WsOpcode` enumerators (name, value) -/\n"
@@ -34,6 +36,8 @@ def gen(repo):
     t += "def controlOpcodes : List Nat := %s\n" % lean_nat_list(ctl)
     t += "/-- `WebSocketServer::_maxFrameSize` constructor default -/\n"
     t += "def serverDefaultMaxFrameSize : Nat := %d\n" % dflt
+    t += "/-- `WebSocketClient::kMaxFramePayload` -/\n"
+    t += "def clientMaxFramePayload : Nat := %d\n" % cmax
     t += "/-- literals in `WebSocketFrame::parse`: largest control payload, 16-bit marker, 64-bit marker -/\n"
     t += "def maxControlPayload : Nat := %d\ndef len16Marker : Nat := %d\ndef len64Marker : Nat := %d\n" % (max_ctl, m16, m64)
     t += "/-- literals in `WebSocketFrame::serialize`: largest 7-bit length, largest 16-bit length -/\n"
